@@ -307,21 +307,21 @@ func judgeHealth(c *h.Case, who string, maxFailed int, timeout time.Duration, pr
 			sb.WriteByte('F')
 		}
 		if !p.HasDL {
-			c.Violation("health-probe-without-deadline", "%s: probe %d was sent without a deadline (configured timeout %v)", who, k, timeout)
+			viol(c, "health-probe-without-deadline", "%s: probe %d was sent without a deadline (configured timeout %v)", who, k, timeout)
 			bad = true
 		} else if time.Duration(p.DLms)*time.Millisecond > timeout+50*time.Millisecond {
-			c.Violation("health-probe-deadline-beyond-configured-timeout", "%s: probe %d carries a deadline of %d ms, configured timeout is %v", who, k, p.DLms, timeout)
+			viol(c, "health-probe-deadline-beyond-configured-timeout", "%s: probe %d carries a deadline of %d ms, configured timeout is %v", who, k, p.DLms, timeout)
 			bad = true
 		}
 		if p.OK && time.Duration(p.End-p.Start) > timeout+time.Second {
-			c.Violation("health-probe-exceeding-timeout-counted-as-success", "%s: probe %d was answered after %v (timeout %v) and returned as a success", who, k, time.Duration(p.End-p.Start), timeout)
+			viol(c, "health-probe-exceeding-timeout-counted-as-success", "%s: probe %d was answered after %v (timeout %v) and returned as a success", who, k, time.Duration(p.End-p.Start), timeout)
 			bad = true
 		}
 		if p.Planned == "S" && !p.OK {
 			run.Count("probe_outcome_drift", 1) // a planned success failed (loaded machine): the model follows the observation
 		}
 		if (p.Planned == "N" || p.Planned == "R") && p.OK {
-			c.Violation("health-harness-outcome-mismatch", "%s: probe %d planned %s but observed as success (harness problem?)", who, k, p.Planned)
+			viol(c, "health-harness-outcome-mismatch", "%s: probe %d planned %s but observed as success (harness problem?)", who, k, p.Planned)
 			bad = true
 		}
 	}
@@ -352,26 +352,26 @@ func judgeHealth(c *h.Case, who string, maxFailed int, timeout time.Duration, pr
 		case j < len(got) && (i >= len(want) || got[j].After < want[i].After):
 			g := got[j]
 			if g.After < 0 {
-				c.Violation("health-verdict-before-first-probe", "%s: callback up=%v before any probe had completed", who, g.Up)
+				viol(c, "health-verdict-before-first-probe", "%s: callback up=%v before any probe had completed", who, g.Up)
 			} else if g.Up {
-				c.Violation("health-up-without-successful-probe", "%s (maxFailed %d): outcomes %s: reported healthy after probe %d (%s, status %d, err %q), model has no such transition",
+				viol(c, "health-up-without-successful-probe", "%s (maxFailed %d): outcomes %s: reported healthy after probe %d (%s, status %d, err %q), model has no such transition",
 					who, maxFailed, sb.String(), g.After, obsWord(probes[g.After]), probes[g.After].Status, probes[g.After].Err)
 			} else {
-				c.Violation("health-down-without-max-consecutive-failures", "%s (maxFailed %d): outcomes %s: reported unhealthy after probe %d, where only %d failure(s) in a row had been seen",
+				viol(c, "health-down-without-max-consecutive-failures", "%s (maxFailed %d): outcomes %s: reported unhealthy after probe %d, where only %d failure(s) in a row had been seen",
 					who, maxFailed, sb.String(), g.After, consecBefore(g.After))
 			}
 			return true
 		case i < len(want) && (j >= len(got) || want[i].After < got[j].After):
 			w := want[i]
 			if w.Up {
-				c.Violation("health-not-up-after-successful-probe", "%s (maxFailed %d): outcomes %s: probe %d succeeded while unhealthy but no success callback followed it", who, maxFailed, sb.String(), w.After)
+				viol(c, "health-not-up-after-successful-probe", "%s (maxFailed %d): outcomes %s: probe %d succeeded while unhealthy but no success callback followed it", who, maxFailed, sb.String(), w.After)
 			} else {
-				c.Violation("health-not-down-after-max-consecutive-failures", "%s (maxFailed %d): outcomes %s: probe %d was failure number %d in a row but no failure callback followed it", who, maxFailed, sb.String(), w.After, consecBefore(w.After))
+				viol(c, "health-not-down-after-max-consecutive-failures", "%s (maxFailed %d): outcomes %s: probe %d was failure number %d in a row but no failure callback followed it", who, maxFailed, sb.String(), w.After, consecBefore(w.After))
 			}
 			return true
 		default:
 			if want[i].Up != got[j].Up {
-				c.Violation("health-verdict-direction-mismatch", "%s: outcomes %s: after probe %d model says up=%v, callback says up=%v", who, sb.String(), want[i].After, want[i].Up, got[j].Up)
+				viol(c, "health-verdict-direction-mismatch", "%s: outcomes %s: after probe %d model says up=%v, callback says up=%v", who, sb.String(), want[i].After, want[i].Up, got[j].Up)
 				return true
 			}
 			i++
@@ -480,6 +480,7 @@ func genPlan(rng *rand.Rand, maxFailed, n int) string {
 // cases
 
 func healthCase(c *h.Case) {
+	begin(c)
 	if c.Rng.Intn(4) == 0 {
 		healthTCPCase(c)
 	} else {
@@ -714,7 +715,7 @@ func healthTCPCase(c *h.Case) {
 		time.Sleep(1500*time.Millisecond + time.Duration(rng.Intn(1000))*time.Millisecond)
 		if len(get()) != 0 {
 			c.Data["callbacks"] = get()
-			c.Violation("health-up-without-successful-probe", "tcp monitor reported a verdict while its target had never accepted a connection: %+v", get())
+			viol(c, "health-up-without-successful-probe", "tcp monitor reported a verdict while its target had never accepted a connection: %+v", get())
 			return
 		}
 		tOpen0 = h.Now()
@@ -723,12 +724,12 @@ func healthTCPCase(c *h.Case) {
 		}
 	}
 	if !waitTrans(1, grace) {
-		c.Violation("health-not-up-after-successful-probe", "tcp monitor: target accepting for %v, no success callback", grace)
+		viol(c, "health-not-up-after-successful-probe", "tcp monitor: target accepting for %v, no success callback", grace)
 		return
 	}
 	if t0 := get()[0]; !t0.Up || t0.T < tOpen0 {
 		c.Data["callbacks"] = get()
-		c.Violation("health-up-without-successful-probe", "tcp monitor: first callback %+v precedes the first moment the target accepted connections (%d)", t0, tOpen0)
+		viol(c, "health-up-without-successful-probe", "tcp monitor: first callback %+v precedes the first moment the target accepted connections (%d)", t0, tOpen0)
 		return
 	}
 	// short windows: fewer than maxFailed probes fit into each, a success separates them
@@ -772,7 +773,7 @@ func healthTCPCase(c *h.Case) {
 		}
 		if n := len(get()); n != 1 && !stretched {
 			c.Data["callbacks"] = get()
-			c.Violation("health-down-without-max-consecutive-failures", "tcp monitor (maxFailed %d): %d closed windows, each too short for %d probes and separated by successful probes, yet callbacks %+v", maxFailed, nShort, maxFailed, get()[1:])
+			viol(c, "health-down-without-max-consecutive-failures", "tcp monitor (maxFailed %d): %d closed windows, each too short for %d probes and separated by successful probes, yet callbacks %+v", maxFailed, nShort, maxFailed, get()[1:])
 			return
 		}
 		if stretched {
@@ -786,21 +787,21 @@ func healthTCPCase(c *h.Case) {
 		return
 	}
 	if !waitTrans(2, grace) {
-		c.Violation("health-not-down-after-max-consecutive-failures", "tcp monitor (maxFailed %d): target refusing for %v, no failure callback", maxFailed, grace)
+		viol(c, "health-not-down-after-max-consecutive-failures", "tcp monitor (maxFailed %d): target refusing for %v, no failure callback", maxFailed, grace)
 		return
 	}
 	d := get()[1]
 	if d.Up {
-		c.Violation("health-verdict-direction-mismatch", "tcp monitor: second callback is a success while the target refuses")
+		viol(c, "health-verdict-direction-mismatch", "tcp monitor: second callback is a success while the target refuses")
 		return
 	}
 	if min := time.Duration(maxFailed-1) * iv; time.Duration(d.T-t0) < min {
-		c.Violation("health-down-without-max-consecutive-failures", "tcp monitor (maxFailed %d, interval %v): failure callback %v after the target started refusing; %d failed probes need at least %v", maxFailed, iv, time.Duration(d.T-t0), maxFailed, min)
+		viol(c, "health-down-without-max-consecutive-failures", "tcp monitor (maxFailed %d, interval %v): failure callback %v after the target started refusing; %d failed probes need at least %v", maxFailed, iv, time.Duration(d.T-t0), maxFailed, min)
 		return
 	}
 	time.Sleep(time.Duration(rng.Intn(1500)) * time.Millisecond)
 	if len(get()) != 2 {
-		c.Violation("health-verdict-direction-mismatch", "tcp monitor: extra callbacks while the target keeps refusing: %+v", get()[2:])
+		viol(c, "health-verdict-direction-mismatch", "tcp monitor: extra callbacks while the target keeps refusing: %+v", get()[2:])
 		return
 	}
 	t1 := h.Now()
@@ -808,11 +809,11 @@ func healthTCPCase(c *h.Case) {
 		return
 	}
 	if !waitTrans(3, grace) {
-		c.Violation("health-not-up-after-successful-probe", "tcp monitor: target accepting again for %v, no success callback", grace)
+		viol(c, "health-not-up-after-successful-probe", "tcp monitor: target accepting again for %v, no success callback", grace)
 		return
 	}
 	if u := get()[2]; !u.Up || u.T < t1 {
-		c.Violation("health-up-without-successful-probe", "tcp monitor: callback %+v after the failure verdict precedes the reopening of the target (%d)", u, t1)
+		viol(c, "health-up-without-successful-probe", "tcp monitor: callback %+v after the failure verdict precedes the reopening of the target (%d)", u, t1)
 		return
 	}
 	run.Count("health_sequences", 1)
